@@ -102,6 +102,41 @@ Theorem C11_chain_bounded : forall ps init hs targets n,
 Proof. exact chain_bounded. Qed.
 Print Assumptions C11_chain_bounded.
 
+(* the clauses of the property at chain level: what holds of EVERY request put on the wire.
+   Redirects disabled: nothing but the first request is ever sent *)
+Theorem C11_disabled_sends_only_the_first_request : forall ps init hs targets,
+  In PNo ps -> fst (run_chain ps init hs targets) = [{| s_host := init; s_hdrs := hs |}].
+Proof. exact chain_disabled. Qed.
+Print Assumptions C11_disabled_sends_only_the_first_request.
+
+(* SameHost / SameDomain among the policies: every request of the chain goes to the host / domain
+   of the first one *)
+Theorem C11_same_host_chain_stays_on_host : forall ps init hs targets s,
+  In PSameHost ps -> In s (fst (run_chain ps init hs targets)) ->
+  get_hostname (s_host s) = get_hostname init.
+Proof. exact chain_same_host. Qed.
+Print Assumptions C11_same_host_chain_stays_on_host.
+
+Theorem C11_same_domain_chain_stays_in_domain : forall ps init hs targets s,
+  In PSameDomain ps -> In s (fst (run_chain ps init hs targets)) ->
+  get_domain (s_host s) = get_domain init.
+Proof. exact chain_same_domain. Qed.
+Print Assumptions C11_same_domain_chain_stays_in_domain.
+
+(* AllowedHost / AllowedDomain among the policies: every redirected request goes to a named host /
+   domain - so no header of any kind reaches another one *)
+Theorem C11_allowed_host_chain_only_named_hosts : forall ps init hs targets l s,
+  In (PAllowedHost l) ps -> In s (tl (fst (run_chain ps init hs targets))) ->
+  mem_bytes (get_hostname (s_host s)) (map (fun h => to_lower (get_hostname h)) l) = true.
+Proof. exact chain_allowed_host. Qed.
+Print Assumptions C11_allowed_host_chain_only_named_hosts.
+
+Theorem C11_allowed_domain_chain_only_named_domains : forall ps init hs targets l s,
+  In (PAllowedDomain l) ps -> In s (tl (fst (run_chain ps init hs targets))) ->
+  mem_bytes (get_domain (s_host s)) (map (fun h => to_lower (get_domain h)) l) = true.
+Proof. exact chain_allowed_domain. Qed.
+Print Assumptions C11_allowed_domain_chain_only_named_domains.
+
 (* headers.  [hs] = the caller's headers on the first request (canonical name, number of values) -
    ANY set of them; sensitive = net/http's list.  A sensitive header that no AlwaysCopy policy
    names reaches only the initial host and hosts Go's cross-origin rule allows, and once the chain
